@@ -2,7 +2,9 @@
 (luna/gateware/usb/request/standard.py: StandardRequestHandler UNHANDLED / CLEAR_FEATURE;
  luna/gateware/usb/usb2/request.py: USBRequestHandlerMultiplexer fallback StallOnlyRequestHandler; as wired by
  luna/gateware/usb/usb2/control.py: USBControlEndpoint).  Targets, alphabets and trace generators are those of props/C07.py."""
+import copy, sys
 from harness import tie, tie_explicit
+from harness.tie import Obligation
 from props import C07 as base
 
 PID = "C10"
@@ -21,12 +23,81 @@ ASSUMPTIONS = [
     "both are stated exactly (stall_cycle_ok); (3) an OUT data stage of an unsupported request is not STALLed by LUNA (the data packets are "
     "left unanswered until the status stage), which the property text allows",
     "skiplist: a predicate of the eight setup bytes (hypothesis skip_ext; true of every LUNA skiplist, which are functions of the SetupPacket)",
+    "the bRequest sweep (C10_sweep_<target>) starts from the reset state and follows one fixed event order per setup packet; arbitrary "
+    "interleavings are covered by the alphabet tie only for the alphabet's request codes (implemented codes, their 0x40/0x80/0xC0 aliases, "
+    "0xFF, and the unsupported templates)",
     "netlist = model is kernel-checked over finite input alphabets (see C07); other field values by correspondence and by the specification "
     "monitor on simulator traces (requests drawn from templates and at random over all fields)",
 ]
 
 targets = base.targets
-traces = base.traces
+
+
+def directed_high_requests(rng, ep):
+    """for every implemented request code c: STANDARD requests c|0x40, c|0x80, c|0xC0 (and 0xFF), each as a complete
+    transfer (status / data stage visited, host ACKs), interleaved with the genuine request c"""
+    out = []
+    for t in base.HIGH_REQ_TEMPLATES:
+        g = base.Gen(rng, ep)
+        g.idle(1)
+        for s in (t, dict(t, request=t["request"] & 0x3F) if t["request"] != 0xFF else t, t):
+            g.setup_xact(s)
+            if s["length"]:
+                if s["is_in_request"]:
+                    g.in_xact(acked=True, data=base.data_stub(rng)); g.out_xact(good=True)
+                else:
+                    g.out_xact(good=True); g.in_xact(acked=True)
+            else:
+                g.in_xact(acked=True)
+            g.in_xact(acked=True)
+        out.append(g.tr)
+    return out
+
+
+def traces(target, rng, tier):
+    trs = base.traces(target, rng, tier)
+    if target.kind != "e2e":
+        trs = directed_high_requests(rng, target.params["ep"]) + trs
+    return trs
+
+
+def sweep(name, target, P, ep):
+    """Kernel-checked exhaustive sweep on the regenerated netlist: for ALL 256 bRequest codes of STANDARD requests x 3
+    recipients x 3 stage shapes x 2 wValues, the directed transfer sw_trace gives netlist outputs == model outputs."""
+    G = target.modname
+    defs = f"""
+Module {name}.
+  Definition traces : list (list N) := sw_all {ep}.
+  Definition same (tr : list N) : bool := list_eqb (run {G}.step {G}.init tr) (run (cx_stepN {P}) cx_init tr).
+  Definition ob_cex : option (list N) := Eval vm_compute in find (fun tr => negb (same tr)) traces.
+  Definition ob_left : nat := 0.
+  Definition ob_states : nat := Eval vm_compute in length traces.
+End {name}.
+"""
+    thms = f"""
+Module {name}_T.
+  Import {name}.
+  Lemma all_same : forallb same traces = true.
+  Proof. vm_cast_no_check (eq_refl true). Qed.
+  Theorem tie : forall tr, In tr (sw_all {ep}) -> run {G}.step {G}.init tr = run (cx_stepN {P}) cx_init tr.
+  Proof.
+    intros tr H. pose proof all_same as A. rewrite forallb_forall in A.
+    apply list_eqb_eq. exact (A tr H).
+  Qed.
+End {name}_T.
+"""
+    o = Obligation(name, "R-sweep", target, defs, thms, [f"{name}_T.tie"],
+                   f"exhaustive sweep, kernel-checked on the regenerated netlist: all 256 bRequest codes of STANDARD requests x recipient "
+                   f"{{device, interface, endpoint}} x {{no data stage, IN data, OUT data}} x wValue {{0, 1}} -- SETUP, then every answer "
+                   f"opportunity with a host ACK after each: netlist outputs == model outputs in every cycle")
+    def confirm(path, bdir, hdr):
+        from harness import check
+        shim = copy.copy(o)
+        shim.mon_expr = f"(rl_mon cx_state (cx_stepN {P}) cx_enc cx_dec (fun _ _ => true))"
+        shim.m0_expr = "(cx_enc cx_init)"
+        return check.confirm_on_impl(sys.modules[__name__], shim, path, bdir, hdr)
+    o.confirm = confirm
+    return o
 
 
 def obligations(targets, tier):
@@ -37,7 +108,9 @@ def obligations(targets, tier):
             continue
         P = base.coq_params(t)
         if t.kind == "small":
-            al = base.alphabet(t.params["ep"], tier)
+            al = base.alphabet(t.params["ep"], tier, high_req=True)
+            if t.params["skip_req"] is None:
+                obs.append(sweep(f"sweep_{t.name}", t, P, t.params["ep"]))
             obs.append(tie_explicit.rlock_alpha(
                 f"ob_{t.name}", t, St="cx_state", mstep=f"cx_stepN {P}", enc="cx_enc", dec="cx_dec",
                 wf="(fun _ => True)", dec_enc="(fun s _ => cx_dec_enc s)", wf_step="(fun _ _ _ => I)",
@@ -68,11 +141,24 @@ Proof.
   apply unsupported_requests_stalled. {ext}.
 Qed.
 """
+        if t.params["skip_req"] is None:
+            s += f"""
+Theorem C10_sweep_{t.name} : forall r rc ld v, r < 256 -> In rc sw_recipients -> In ld sw_stages -> In v sw_values ->
+  let tr := sw_trace {ep} r rc (fst ld) (snd ld) v in
+  let outs := map cx_unpack (run {t.modname}.step {t.modname}.init tr) in
+  outs = xrun (cx_step {base.coq_params(t)}) cx_init tr /\\ stalled_along {ep} {sk} st10_0 tr outs = true.
+Proof.
+  intros r rc ld v Hr Hrc Hld Hv. cbv zeta.
+  rewrite (sweep_{t.name}_T.tie _ (sw_in {ep} r rc ld v Hr Hrc Hld Hv)), unpack_run.
+  split; [reflexivity | apply unsupported_requests_stalled; {ext}].
+Qed.
+"""
     return s
 
 
 def tie_theorem_names(targets, tier):
-    return [f"C10_{t.name}" for t in targets if t.kind == "small"]
+    return [f"C10_{t.name}" for t in targets if t.kind == "small"] + \
+           [f"C10_sweep_{t.name}" for t in targets if t.kind == "small" and t.params["skip_req"] is None]
 
 
 LEVEL_TEXT = ("Machine-checked proof, at the level of LUNA's own interfaces. (1) C10_unsupported_requests_stalled: for every endpoint number, "
@@ -83,7 +169,12 @@ LEVEL_TEXT = ("Machine-checked proof, at the level of LUNA's own interfaces. (1)
               "NAK, no ACK other than the SETUP's own and PING answers, and STALL requested exactly when the request handler is asked for data "
               "(data-stage IN) or status (first time only for claimed standard requests, every time for unclaimed ones). With C07_stage_protocol "
               "(restated) those moments are exactly the IN-token / status-stage answer opportunities. (2) Per run, the netlist regenerated from "
-              "/repo is proved equal to the model on all traces over the tie alphabets, transferring (1) to the netlist (C10_<target>). "
+              "/repo is proved equal to the model on all traces over the tie alphabets (which include, for every implemented request code c, the "
+              "STANDARD requests c|0x40, c|0x80, c|0xC0 and 0xFF), transferring (1) to the netlist (C10_<target>); and an exhaustive kernel-checked "
+              "sweep settles the bRequest dimension on the netlist: for ALL 256 bRequest codes of STANDARD requests x recipient {device, "
+              "interface, endpoint} x {no data stage, IN data, OUT data} x wValue {0, 1}, the directed transfer (SETUP, then every answer "
+              "opportunity with a host ACK after each, from reset) gives netlist outputs = model outputs in every cycle, hence STALL at the "
+              "first opportunity and no strobe / data for every unsupported code (C10_sweep_<target>). "
               "(3) Checked, not proved: specification monitor + model correspondence on simulator traces of the stubbed endpoint and of the complete "
               "USBDevice driven over UTMI (real SETUP decoder / descriptor handler / serializer; requests drawn from templates and at random).")
 LEVEL_NOTE = ("The model is the property-satisfying behaviour; the unchanged /repo violates the property: CLEAR_FEATURE with a selector other "
